@@ -177,6 +177,12 @@ class FromDAOState:
     Dictionary that marks objects as currently being processed by the `from_dao` method.
     """
 
+    keep_alive: List[Any] = field(default_factory=list)
+    """
+    Temporary DAOs that were converted during this conversion. The memo is keyed by object id, an id is only unique
+    as long as the object lives.
+    """
+
     def has(self, dao_obj: Any) -> bool:
         return id(dao_obj) in self.memo
 
@@ -785,6 +791,7 @@ class DataAccessObject(HasGeneric[T]):
                     setattr(parent_dao, column.name, getattr(self, column.name))
             for rel in parent_mapper.relationships:
                 setattr(parent_dao, rel.key, getattr(self, rel.key))
+            state.keep_alive.append(parent_dao)
             base_result = parent_dao.from_dao(state=state)
             for argument in argument_names:
                 if argument not in base_kwargs and not hasattr(self, argument):
